@@ -34,6 +34,10 @@ CLAIMS = {
          "TimerDevice::poll_interrupt is the countdown automaton: first test is self.enabled and its disabled edge returns None with no store/call; match on time has exactly arms {0}: reset_remaining + None, {1}: time := 0 + Some(Interrupt::vectored(self.vect, self.priority)), rest: time -= 1 + None; try_generate_time samples random_range over exactly (start, end) with inclusive/exclusive chosen by end_incl; SampleRange::new maps Included/Excluded/Unbounded start to s / checked s+1 / 0 and end to (s,true)/(s,false)/(u32::MAX,true); io_reset and reset_remaining resample; writers of `time` are exactly those three.",
          "The arithmetic consequence (t polls between interrupts) is argued from the arms in DESIGN.md, not computed. Trusted: rustc MIR, mirfacts, rules/lib.",
          "automaton extraction from the SwitchInt on MIR, per-arm effect sets, field-writer ownership", "5 C34"),
+"C13": ("other",
+         "Loop-structure clauses: (1) one engine - `step` is called only by run_while (once, inside the loop) and step_in (once, no loop), `_step_inner` only by `step`, none of them is taken as a function value; run/run_with_limit/step_over/step_out make exactly one run_while call, store nothing and have no loop. (2) loop order on run_while's CFG - MCR load dominates tripwire dominates step dominates breakpoint scan, each once per iteration; exits MCROff/Tripwire/Halt/Err(e)/Breakpoint are built on exactly their edges with no call in between; single back edge after the scan; MCR stored true before and false after; only pause_condition is stored (after the loop). (3) continue-predicates in name-independent normal form: run = true; run_with_limit = instructions_run (-)wrapping i@entry < max_steps; step_over = first || depth@entry < depth; step_out = guarded by depth@entry != 0, first || depth@entry <= depth; depth is FrameStack.frame_no. (4) Comparator::check rows equal their operators; Breakpoint::check takes &Simulator, reads pc/reg_file/mem by plain indexing only.",
+         "The segment-splitting equality (same final state for any split) is argued from these facts in DESIGN.md, not computed; host tripwires are outside the claim. Trusted: rustc MIR, mirfacts, rules/lib.",
+         "who-may-call on the resolved call graph, dominance on the loop CFG, normal-form comparison of closure return cases with upvar substitution", "5 C13"),
 "C09": ("other",
          "In read_mem and write_mem the AccessViolation return (condition normalised to !ctx.privileged && addr outside [x3000,xFE00), range read from the promoted constant) precedes every call and every store of the function (CFG reachability: nothing effectful can reach the error return); only an enumerated owner set indexes the memory array or calls device io_read/io_write/InternalRegister; every read_mem/write_mem call reachable from step passes default_mem_ctx() or a struct update of it changing only `strict`; default_mem_ctx().privileged is psr.privileged() || ignore_privilege; handle_interrupt takes its context after set_privileged(true); every RTI effect is guarded by exactly the two-way privilege test; writers of Simulator.psr are enumerated and the field is private.",
          "Host code with &mut Simulator can use public fields; the claim is about simulated user-mode code. 'Leaves state unchanged' is claimed as guard-first. Trusted: rustc MIR, mirfacts, rules/lib.",
